@@ -249,12 +249,34 @@ def registrations(func, prog):
             else:
                 cb = kwarg(c, "callback", 0)
                 eb = kwarg(c, "errback", 1)
+            # a handler / argument tuple named by a local bound once (`h = self._on_reply; d.addCallbacks(h, h, callbackArgs=a)`)
+            if isinstance(cb, ast.Name):
+                cb = _expand_handler(prog, func, cb)
+            if isinstance(eb, ast.Name):
+                eb = _expand_handler(prog, func, eb)
             if kind == "cbs" and cb is not None and eb is not None and unparse(cb) == unparse(eb):
                 kind = "both"  # addCallbacks(h, h) is addBoth(h)
+            if REG_METHODS[c.func.attr] == "cbs":
+                cba, eba = kwarg(c, "callbackArgs", 2), kwarg(c, "errbackArgs", 3)
+                cba = expand(prog, func, cba, depth=1, calls=True) if isinstance(cba, ast.Name) else cba
+                eba = expand(prog, func, eba, depth=1, calls=True) if isinstance(eba, ast.Name) else eba
+                cb_args = list(cba.elts) if isinstance(cba, (ast.Tuple, ast.List)) else []
+                eb_args = list(eba.elts) if isinstance(eba, (ast.Tuple, ast.List)) else []
+            else:
+                cb_args = eb_args = list(c.args[1:])
             regs.append({"root": root_text, "root_node": root, "kind": kind, "cb": cb, "eb": eb, "call": c,
-                         "lineno": c.lineno})
+                         "lineno": c.lineno, "cb_args": cb_args if cb is not None else [], "eb_args": eb_args if eb is not None else []})
     regs.sort(key=lambda r: (r["call"].end_lineno, r["call"].end_col_offset))
     return regs
+
+
+def _expand_handler(prog, func, name):
+    if prog is None:
+        return name
+    if prog.resolve_callable(func, name) is not None:
+        return name  # a nested / module-level function
+    e = expand(prog, func, name, consts=False)
+    return e if isinstance(e, (ast.Attribute, ast.Lambda)) else name
 
 
 def aliases_of(func, name_or_chain):
@@ -1064,3 +1086,133 @@ def value_origins(cfg, nid, expr, params=(), _depth=0):
             out.extend(sub)
         return out
     return [(nid, expr)]
+
+
+def resolved_facts(facts):
+    """The must-facts with every local that a definition fact names replaced by its definition (so a fact about an
+    alias reads as a fact about what it aliases); definition facts themselves are dropped."""
+    from ..cfg import resolve_at
+
+    out = set()
+    for t, pol in facts:
+        if t.startswith("(") and " := " in t:
+            continue
+        try:
+            e = ast.parse(t, mode="eval").body
+        except SyntaxError:
+            out.add((t, pol))
+            continue
+        out.add((norm(resolve_at(facts, e), 400), pol))
+    return out
+
+
+def decision_table(ctx, func, atoms, targets):
+    """For every truth assignment of the named atoms: can a node of `targets` be reached, and can the function
+    complete normally without passing one?  atoms: {name: [equivalent expression texts]}.  Each test is resolved
+    flow-sensitively (temporaries replaced by their definitions), then evaluated three-valued from the atoms
+    (and / or / not / the atoms' texts, also with the comparison written the other way round); tests that do not
+    evaluate keep both branches.  Returns {assignment tuple: (reachable, avoidable)} with assignment in the order of
+    sorted(atoms)."""
+    import itertools
+
+    cf = ctx.cfg(func)
+    names = sorted(atoms)
+    text_of = {}
+    for nm, texts in atoms.items():
+        for t in texts:
+            text_of[" ".join(t.split())] = nm
+
+    def ev(e, val):
+        t = norm(e, 400)
+        if t in text_of:
+            return val[text_of[t]]
+        if isinstance(e, ast.Compare) and len(e.ops) == 1:
+            flip = {ast.LtE: ast.GtE, ast.GtE: ast.LtE, ast.Lt: ast.Gt, ast.Gt: ast.Lt, ast.Eq: ast.Eq, ast.NotEq: ast.NotEq}.get(type(e.ops[0]))
+            if flip:
+                t2 = norm(ast.Compare(left=e.comparators[0], ops=[flip()], comparators=[e.left]), 400)
+                if t2 in text_of:
+                    return val[text_of[t2]]
+        if isinstance(e, ast.UnaryOp) and isinstance(e.op, ast.Not):
+            v = ev(e.operand, val)
+            return None if v is None else (not v)
+        if isinstance(e, ast.BoolOp):
+            vs = [ev(x, val) for x in e.values]
+            if isinstance(e.op, ast.And):
+                if any(v is False for v in vs):
+                    return False
+                return True if all(v is True for v in vs) else None
+            if any(v is True for v in vs):
+                return True
+            return False if all(v is False for v in vs) else None
+        return None
+
+    resolved = {n.id: at(ctx, func, n.id, n.stmt.test) for n in cf.nodes if n.kind == "test"}
+    out = {}
+    tset = set(targets)
+    for combo in itertools.product((False, True), repeat=len(names)):
+        val = dict(zip(names, combo))
+        dead = set()
+        for nid, e in resolved.items():
+            v = ev(e, val)
+            if v is not None:
+                for t, lab in cf.succ[nid]:
+                    if lab and lab[0] == "cond" and lab[2] != v:
+                        dead.add((nid, t))
+
+        def reach(avoid):
+            seen, stack = set(), [cf.entry.id]
+            while stack:
+                x = stack.pop()
+                if x in seen or x in avoid:
+                    continue
+                seen.add(x)
+                for t, lab in cf.succ[x]:
+                    if (x, t) not in dead and lab != ("exc",):
+                        stack.append(t)
+            return seen
+
+        r_all = reach(set())
+        out[combo] = (bool(r_all & tset), cf.exit.id in reach(tset))
+    return names, out
+
+
+def filtered_collects(func):
+    """Collections built by filtering a source, in one normal form:
+    (name, element expr, source expr, loop target, [condition exprs]) for `name = {E for t in S if C}` (set / list
+    comprehension, one generator) and for `for t in S: if C: name.add(E)` / `.append(E)` (the add directly under the
+    ifs, which are directly under the loop)."""
+    out = []
+    for x in walk_body_shallow(func.body):
+        if isinstance(x, ast.Assign) and len(x.targets) == 1 and isinstance(x.targets[0], ast.Name) and isinstance(
+                x.value, (ast.SetComp, ast.ListComp)) and len(x.value.generators) == 1:
+            g = x.value.generators[0]
+            out.append((x.targets[0].id, x.value.elt, g.iter, g.target, list(g.ifs)))
+        if isinstance(x, ast.For) and not x.orelse:
+            conds, body = [], x.body
+            while len(body) == 1 and isinstance(body[0], ast.If) and not body[0].orelse:
+                conds.append(body[0].test)
+                body = body[0].body
+            for st in body:
+                if isinstance(st, ast.Expr) and isinstance(st.value, ast.Call) and isinstance(st.value.func, ast.Attribute) and \
+                        st.value.func.attr in ("add", "append") and isinstance(st.value.func.value, ast.Name) and st.value.args:
+                    out.append((st.value.func.value.id, st.value.args[0], x.iter, x.target, conds))
+    return out
+
+
+def isinstance_classes(prog, func, cond, var):
+    """Class names C such that `cond` is true exactly when isinstance(var, C) for one of them: accepts
+    isinstance(var, A), isinstance(var, (A, B)), a module constant naming such a tuple, and `or` of those."""
+    if isinstance(cond, ast.BoolOp) and isinstance(cond.op, ast.Or):
+        out = set()
+        for v in cond.values:
+            sub = isinstance_classes(prog, func, v, var)
+            if sub is None:
+                return None
+            out |= sub
+        return out
+    if isinstance(cond, ast.Call) and isinstance(cond.func, ast.Name) and cond.func.id == "isinstance" and len(cond.args) == 2 and \
+            norm(cond.args[0]) == var:
+        c = expand(prog, func, cond.args[1])
+        elts = c.elts if isinstance(c, (ast.Tuple, ast.List)) else [c]
+        return {unparse(e).split(".")[-1] for e in elts}
+    return None
